@@ -107,3 +107,8 @@ def run(ctx):
     for kind in AC.TRACING:
         for n in ("call_fn_unary", "call_fn_binary"):
             ctx.guarded(r, AK_.check_call_helper, kind, n)
+    from .. import a64checks as XC
+
+    r = ctx.rule("R7c", "aarch64 tracing assemblers follow the choice protocol simplify relies on (byte loaded, one choice ORed, flag iff decided, stored back with x1 += 1, value = chosen operand)", 26 + 28)
+    for kind in XC.TRACING:
+        ctx.guarded(r, XC.check_choice_protocol, kind)
